@@ -1,5 +1,56 @@
 import KrroodVerif.Sexp
+import KrroodVerif.Model.Dao
+import KrroodVerif.Drive.C04
+/-!
+Driver of C05: `to_dao` → flush → load in a fresh session through `via` → `from_dao`, plus row counts per table.
+`model=` is the model of today's code (all open quirks on); the unit of work processes the sources of a
+ONETOMANY-inferred reference in an unspecified order, and each open finding may be repaired separately, so every
+further admissible outcome is printed as `model_<i>=`.
+-/
 namespace KrroodVerif.Drive.C05
-/-- stub: replaced when the model for C05 is built -/
-def run (_ : Sexp) : String := "model=unimplemented\tspec=unimplemented\ttrig="
+open KrroodVerif.Dao
+open KrroodVerif.Drive.C04 (parseCase unmapOf Case)
+
+def showCounts (cs : List (String × Nat)) : String :=
+  ",".intercalate (sortStrings (cs.map fun (t, c) => s!"{t}={c}"))
+
+def showResult : Option (List Nat × Heap × DB) → String
+  | some (roots, h, db) => canon h roots ++ " rows:" ++ showCounts (tableCounts db)
+  | none => "error:model"
+
+def cartesian : List (List Nat) → List (List Nat)
+  | [] => [[]]
+  | g :: gs => g.flatMap fun x => (cartesian gs).map fun c => x :: c
+
+/-- processing orders that realise every combination of "which source is written last" (capped) -/
+def orders (dh : Heap) : List (List Nat) :=
+  let srcs := (List.range dh.length).filter fun s => !(o2mWrites dirToday dh s).isEmpty
+  let ws := srcs.flatMap fun s => (o2mWrites dirToday dh s).map fun w => ((w.1, w.2.1), s)
+  let keys := ws.map (·.1) |>.foldl (fun acc k => if acc.contains k then acc else acc ++ [k]) []
+  let groups := keys.map (fun k => (ws.filter (·.1 == k)).map (·.2)) |>.filter (·.length ≥ 2)
+  ((cartesian groups).take 24).map fun winners => srcs.filter (fun s => !winners.contains s) ++ winners
+
+def run (s : Sexp) : String :=
+  match parseCase s with
+  | none => "error=bad-case"
+  | some c =>
+    let unmap := unmapOf c.heap
+    match toDao c.heap c.roots with
+    | none => "error=bad-case"
+    | some (_, st) =>
+      let dh := st.out
+      let os := orders dh
+      let bools := [true, false]
+      let qs : List StoreQuirks := bools.flatMap fun a => bools.flatMap fun b => bools.map fun d => ⟨a, b, d⟩
+      let all := qs.flatMap fun q => (if q.selfRef then os else os.take 1).map fun o =>
+        showResult (persistReload q o unmap c.via c.heap c.roots)
+      let distinct := dedupStrings all
+      let spec := canon c.heap c.roots ++ " rows:" ++ showCounts (specCounts c.heap c.roots)
+      let trig := (if trigSelfRef dh then ["F-C05-1"] else [])
+        ++ (if trigStale unmap c.heap c.roots then ["F-C05-2"] else [])
+        ++ (if trigDup dh then ["F-C05-3"] else [])
+      let models := match distinct with
+        | [] => "model=error:model"
+        | m :: rest => "\t".intercalate (s!"model={m}" :: (rest.zipIdx.map fun (p : String × Nat) => s!"model_{p.2 + 1}={p.1}"))
+      s!"{models}\tspec={spec}\ttrig={",".intercalate trig}"
 end KrroodVerif.Drive.C05
